@@ -19,7 +19,7 @@ from .c01 import family
 PROP = "C09"
 BUDGET = {"quick": 420, "thorough": 3600}
 META = {
-    "rule": "roots: fermionic arrays n<=3 (all symmetries, every direction pattern, even and odd charge with a label, sparsity patterns) x pending-sign tables "
+    "rule": "roots: fermionic arrays n<=3 and already-fused arrays that picked up pending signs after the fuse (all symmetries, every direction pattern, even and odd charge with a label, sparsity patterns) x pending-sign tables "
     "(every subset of the stored sectors for n<=2, probes for n=3), each paired with a harness-made synchronised twin; transitions: every catalogue operation on both "
     "members (raw-storage accessors get_params/set_params/apply_to_arrays excluded), plus mixed lazy/synced operand combinations for binary operations; decompositions are "
     "compared on gauge-invariant observables (factor structure, singular / eigen values, reconstructed product). non-trivial = product state whose lazy member still has pending signs",
@@ -280,6 +280,15 @@ def roots(ctx, sym):
             if n >= 2 and len(d["phases"]) == 0:
                 continue  # nothing pending: covered by the other roots' synced twins
             out.append(d)
+    # derived roots: already-fused arrays (one and two fused axes) that picked up pending signs AFTER the fuse
+    for n, menu, charges, sp in ((2, "m3", "all", "probe"), (3, "m2", "two", "probe0")):
+        for j, d in enumerate(U.arrays(sym, n, menu, "a", charges, sp, ferm=True, phases="none", label=3)):
+            if not d["sectors"]:
+                continue
+            grp = ((0, 1),) if n == 2 else ((2, 0),)
+            out.append(dict(d, derive=(("fuse", grp), ("phase_sector_all", j % 2))))
+            if n == 3 and j % 2:
+                out.append(dict(d, derive=(("fuse", ((0, 1), (2,))), ("phase_flip", (0,)))))
     return out
 
 
